@@ -53,6 +53,65 @@ type ditem struct {
 //     reported one was performed without a lock shared with the other; the rules above cover the
 //     dependencies dstep checks across goroutines.
 func DiskTerms(evs []*scorch.VerifEvent, n *strace.Namer, ver strace.VersionOf) (terms []cf.T, stats map[string]int) {
+	return DiskTermsWith(evs, n, ver, nil, 0)
+}
+
+// IntKeys is the universe of internal keys an "observe_int" / "rollback_points" / "point_state"
+// note reports, in order: k0..k(nkeys-1), the batch tag, the index mapping.
+func IntKeys(nkeys int) []string {
+	var ks []string
+	for i := 0; i < nkeys; i++ {
+		ks = append(ks, KeyName(i))
+	}
+	return append(ks, "__b", "_mapping")
+}
+
+// IntArgs encodes GetInternal results for IntKeys(nkeys): 0 = absent, else strace.ValZ(value)+1.
+func IntArgs(nkeys int, get func(key []byte) []byte) []uint64 {
+	var out []uint64
+	for _, k := range IntKeys(nkeys) {
+		v := get([]byte(k))
+		if v == nil {
+			out = append(out, 0)
+		} else {
+			out = append(out, uint64(strace.ValZ(v))+1)
+		}
+	}
+	return out
+}
+
+func intPairs(n *strace.Namer, nkeys int, args []uint64) cf.T {
+	var ps []cf.T
+	for i, k := range IntKeys(nkeys) {
+		if i >= len(args) {
+			break
+		}
+		if args[i] == 0 {
+			ps = append(ps, cf.Pair(cf.Z(n.Key(k)), cf.None))
+		} else {
+			ps = append(ps, cf.Pair(cf.Z(n.Key(k)), cf.Some(cf.Z(int64(args[i])-1))))
+		}
+	}
+	return cf.List(ps)
+}
+
+func docPairs(args []uint64) cf.T {
+	var ds []cf.T
+	for i, a := range args {
+		if a == 0 {
+			ds = append(ds, cf.Pair(cf.Int(i), cf.None))
+		} else {
+			ds = append(ds, cf.Pair(cf.Int(i), cf.Some(cf.Z(int64(a)-1))))
+		}
+	}
+	return cf.List(ds)
+}
+
+// DiskTermsWith is DiskTerms with the generator's view of the submitted batches: a "submit" note
+// (Args[0] = batch tag) becomes XSubmit with the calls batchOf returns for that tag (nil batchOf or
+// an unknown tag: the note is dropped and the model rejects the tagged introduction).  nkeys is
+// the number of k<i> internal keys observations report (see IntKeys).
+func DiskTermsWith(evs []*scorch.VerifEvent, n *strace.Namer, ver strace.VersionOf, batchOf func(tag uint64) ([]Op, bool), nkeys int) (terms []cf.T, stats map[string]int) {
 	stats = map[string]int{}
 	var out []ditem
 	sessionStart := 0              // index in out where the current session begins
@@ -281,6 +340,44 @@ func DiskTerms(evs []*scorch.VerifEvent, n *strace.Namer, ver strace.VersionOf) 
 			}
 		case "note":
 			switch e.Name {
+			case "submit":
+				// declared before the batch reaches the introducer (whose events are never held back)
+				if batchOf != nil && len(e.Args) > 0 {
+					if ops, ok := batchOf(e.Args[0]); ok {
+						docs, ints := OpsTerms(ops)
+						ints = append(ints, cf.Pair(cf.Z(n.Key("__b")), cf.Some(cf.U(e.Args[0]))))
+						out = append(out, ditem{term: cf.App("XSubmit", cf.U(e.Args[0]), cf.List(docs), cf.List(ints))})
+						stats["submit"]++
+					}
+				}
+			case "observe_int":
+				push(ditem{term: cf.App("XObserveInt", intPairs(n, nkeys, e.Args))})
+				stats["observe_int"]++
+			case "rollback_points":
+				// Args: per point its epoch followed by len(IntKeys(nkeys)) encoded values
+				w := len(IntKeys(nkeys)) + 1
+				var pts []cf.T
+				for i := 0; i+w <= len(e.Args); i += w {
+					pts = append(pts, cf.Pair(cf.U(e.Args[i]), intPairs(n, nkeys, e.Args[i+1:i+w])))
+				}
+				out = append(out, ditem{term: cf.App("XRollbackPoints", cf.List(pts))})
+				stats["rollback_points"]++
+			case "point_state":
+				// Args: epoch, number of documents, their versions (+1, 0 = absent), internal values
+				if len(e.Args) >= 2 && int(e.Args[1])+2 <= len(e.Args) {
+					nd := int(e.Args[1])
+					out = append(out, ditem{term: cf.App("XPointState", cf.U(e.Args[0]), docPairs(e.Args[2:2+nd]), intPairs(n, nkeys, e.Args[2+nd:]))})
+					stats["point_state"]++
+				}
+			case "point_write":
+				// Args: epoch, new segment id (0 = none), number of documents, their versions afterwards;
+				// the calls of the batch that was written are batchOf(^0)
+				if batchOf != nil && len(e.Args) >= 3 && int(e.Args[2])+3 <= len(e.Args) {
+					ops, _ := batchOf(^uint64(0))
+					docs, _ := OpsTerms(ops)
+					out = append(out, ditem{term: cf.App("XPointWrite", cf.U(e.Args[0]), cf.U(e.Args[1]), cf.List(docs), docPairs(e.Args[3:3+int(e.Args[2])]))})
+					stats["point_write"]++
+				}
 			case "ack":
 				push(ditem{term: cf.App("XAck", cf.U(e.Args[0]))})
 				stats["ack"]++
@@ -316,7 +413,8 @@ func DiskTerms(evs []*scorch.VerifEvent, n *strace.Namer, ver strace.VersionOf) 
 					}
 				}
 				// an offline Rollback happens between the end of the process and the reopen
-				for pos < len(out) && strings.HasPrefix(string(out[pos].term), "(XRollback") {
+				// (as do the listing of the rollback points and the look at each of them)
+				for pos < len(out) && (strings.HasPrefix(string(out[pos].term), "(XRollback") || strings.HasPrefix(string(out[pos].term), "(XPoint")) {
 					pos++
 				}
 				out = append(out, ditem{})
